@@ -312,11 +312,16 @@ func (p *Payload) String() string {
 // ---------------------------------------------------------------- signatures
 
 // mkSig mints the signature of identity id over block hash h (kind 'B' block, 'P' pre-block).
-func mkSig(kind byte, id int, h H) []byte {
-	b := make([]byte, 11)
+func mkSig(kind byte, id int, h H) []byte { return mkSigN(kind, id, h, 0) }
+
+// mkSigN: like a randomized signature scheme, signing the same data again yields different bytes (the signing
+// nonce n); verification does not depend on it.
+func mkSigN(kind byte, id int, h H, n int) []byte {
+	b := make([]byte, 13)
 	b[0] = kind
 	binary.LittleEndian.PutUint16(b[1:], uint16(id))
 	binary.LittleEndian.PutUint64(b[3:], uint64(h))
+	binary.LittleEndian.PutUint16(b[11:], uint16(n))
 	return b
 }
 
@@ -325,7 +330,7 @@ func checkSig(kind byte, pub dbft.PublicKey, h H, sig []byte) error {
 	if !ok {
 		return errors.New("bad public key")
 	}
-	if len(sig) != 11 || sig[0] != kind {
+	if len(sig) != 13 || sig[0] != kind {
 		return errors.New("malformed signature")
 	}
 	if int(binary.LittleEndian.Uint16(sig[1:])) != pk.id {
@@ -338,7 +343,7 @@ func checkSig(kind byte, pub dbft.PublicKey, h H, sig []byte) error {
 }
 
 func sigString(sig []byte) string {
-	if len(sig) != 11 {
+	if len(sig) != 13 {
 		return fmt.Sprintf("garbage%x", sig)
 	}
 	return fmt.Sprintf("%c:id%d:%x", sig[0], binary.LittleEndian.Uint16(sig[1:]), binary.LittleEndian.Uint64(sig[3:])&0xffff)
@@ -391,10 +396,12 @@ func (b *Block) Sign(key dbft.PrivateKey) error {
 	if !ok {
 		return errors.New("no private key")
 	}
+	nonce := 0
 	if b.owner != nil {
 		b.owner.onSign(b)
+		nonce = b.owner.monFor(b.index).signCalls - 1
 	}
-	b.sig = mkSig('B', k.id, b.Hash())
+	b.sig = mkSigN('B', k.id, b.Hash(), nonce)
 	return nil
 }
 func (b *Block) Verify(key dbft.PublicKey, sign []byte) error {
@@ -429,10 +436,12 @@ func (b *PreBlock) SetData(key dbft.PrivateKey) error {
 	if !ok {
 		return errors.New("no private key")
 	}
+	nonce := 0
 	if b.owner != nil {
 		b.owner.onSetData(b)
+		nonce = b.owner.monFor(b.index).setDataCalls - 1
 	}
-	b.data = mkSig('P', k.id, b.hash())
+	b.data = mkSigN('P', k.id, b.hash(), nonce)
 	return nil
 }
 func (b *PreBlock) Verify(key dbft.PublicKey, data []byte) error {
